@@ -62,7 +62,7 @@ for pid in sorted(os.listdir(root)):
             if key in fr:
                 first = fr[key]; break
         meta = dict(
-            property=pid, seed=n, round={'a':1,'b':1,'c':2,'d':2,'e':3,'f':3,'g':4,'h':4,'i':5,'j':5,'k':6,'l':6}.get(n,0),
+            property=pid, seed=n, round={'a':1,'b':1,'c':2,'d':2,'e':3,'f':3,'g':4,'h':4,'i':5,'j':5,'k':6,'l':6,'m':7,'n':7}.get(n,0),
             title=title, files_changed=files, functions_touched=funcs,
             breaks='see notes.md (clause of the property, why it looks innocent)',
             needs_to_manifest=needs or 'see notes.md',
